@@ -800,8 +800,65 @@ def big_piece_cases(ctx):
                                "reproduce": "head -c %d /dev/urandom > in (or in/a + in/b); imdl %s; imdl torrent verify --input in.torrent; "
                                             "change one byte; verify; undo; verify" % (size, " ".join(argv))})
             shutil.rmtree(d, ignore_errors=True)
+        unreadable_member_cases(ctx, tmp)
     finally:
         shutil.rmtree(tmp, ignore_errors=True)
+
+
+def unreadable_member_cases(ctx, tmp):
+    """A listed path that can be stat'ed with the listed length but not read (mode 000 seen by another user; a socket where a
+    zero-length file is listed), together with wrong bytes of the right length in ANOTHER listed file: whatever is made of the
+    unreadable entry, the content does not match and verify must not exit 0. (Added after seeded change C03-16: the piece verdict
+    was dropped as "unknown" when any file could not be read, so nothing compared the bytes.)"""
+    import socket as _socket
+    plans = [("socket for a zero-length entry", False)]
+    if lib.can_drop_privileges() and ctx.imdl(["--version"], cwd=tmp, as_nobody=True)[0] == 0:
+        plans.append(("mode 000 member, other user", True))
+    for what, nobody in plans:
+        for md5 in (False, True):
+            d = tempfile.mkdtemp(dir=tmp)
+            os.chmod(d, 0o755)
+            root = os.path.join(d, "in")
+            os.makedirs(root)
+            data = {"a.bin": b"A" * 40, "b.bin": b"B" * 33, "z.empty": b""}
+            for n, b in data.items():
+                with open(os.path.join(root, n), "wb") as f:
+                    f.write(b)
+            argv = ["torrent", "create", "--input", "in", "--piece-length", "16", "--allow", "small-piece-length"] + (["--md5"] if md5 else [])
+            rc, out, err = ctx.imdl(argv, cwd=d, timeout=120)
+            if rc != 0:
+                ctx.violation("infrastructure", "create failed while preparing an unreadable-member case", {"stderr": err.decode("utf-8", "replace")[-300:]})
+                continue
+            for dp, dn, fn in os.walk(d):
+                os.chmod(dp, 0o755)
+                for x in fn:
+                    os.chmod(os.path.join(dp, x), 0o644)
+            if nobody:
+                os.chmod(os.path.join(root, "a.bin"), 0o000)
+            else:
+                os.remove(os.path.join(root, "z.empty"))
+                sk = _socket.socket(_socket.AF_UNIX)
+                sk.bind(os.path.join(root, "z.empty")); sk.close()
+            verdicts = []
+            for step in ("content otherwise intact", "same-length wrong bytes in another file"):
+                if step.startswith("same-length"):
+                    with open(os.path.join(root, "b.bin"), "wb") as f:
+                        f.write(b"X" * 33)
+                r2, o2, e2 = ctx.imdl(["torrent", "verify", "--input", "in.torrent"], cwd=d, timeout=120, as_nobody=nobody)
+                verdicts.append((step, r2, e2.decode("utf-8", "replace")[-200:]))
+            ctx.cov["evaluations"] += 1
+            ctx.count("platform_limit_unreadable_member")
+            ctx.distinct(("platform", "unreadable", what, md5))
+            if verdicts[1][1] != 1 or verdicts[0][1] not in (0, 1):
+                ctx.violation("oracle-failure",
+                              "%s%s: verify exited %r (content otherwise intact) and %r (33 wrong bytes of the right length in b.bin); with wrong "
+                              "bytes in a listed file the exit status is 1" % (what, ", --md5" if md5 else "", verdicts[0][1], verdicts[1][1]),
+                              {"kind": "platform-limit", "which": "unreadable-member", "what": what, "md5": md5, "verify": verdicts,
+                               "reproduce": "mkdir in; printf 'A%%.0s' $(seq 40) > in/a.bin; printf 'B%%.0s' $(seq 33) > in/b.bin; : > in/z.empty; "
+                                            "imdl %s; %s; printf 'X%%.0s' $(seq 33) > in/b.bin; %simdl torrent verify --input in.torrent; echo $?"
+                                            % (" ".join(argv), "chmod 000 in/a.bin" if nobody else "rm in/z.empty; python3 -c 'import socket;socket.socket(socket.AF_UNIX).bind(\"in/z.empty\")'",
+                                               "setpriv --reuid=65534 --regid=65534 --clear-groups " if nobody else "")})
+            shutil.rmtree(d, ignore_errors=True)
 
 
 def platform_limit_cases(ctx):
